@@ -5,6 +5,7 @@ import (
 	"fmt"
 	"os"
 	"runtime/debug"
+	"sort"
 	"strings"
 	"testing"
 	"testing/synctest"
@@ -194,7 +195,11 @@ func (c *Cluster) epilogue(p Profile) {
 			// a graceful stop still in progress: give it time to finish
 			c.Advance(2*c.ET() + c.HB())
 		}
-		if n.Stopped() && n.everStarted {
+	}
+	keep := c.keepDown()
+	for _, id := range c.Order {
+		n := c.Nodes[id]
+		if n.Stopped() && n.everStarted && !keep[id] {
 			c.step(Action{Op: "restart", Node: id, Pat: "epilogue"})
 		}
 	}
@@ -220,6 +225,63 @@ func (c *Cluster) epilogue(p Profile) {
 		}
 	}
 	c.Advance(time.Duration(n-n/2) * c.ET())
+}
+
+// keepDown chooses the nodes that stay down in the fault-free period: at most Header.KeepDown of
+// the stopped nodes, the most recently stopped first, never so many that some configuration reported
+// by a running node would be left without a running majority of its voters.
+func (c *Cluster) keepDown() map[string]bool {
+	keep := map[string]bool{}
+	if c.H.KeepDown <= 0 {
+		return keep
+	}
+	var down []*Node
+	for _, id := range c.Order {
+		if n := c.Nodes[id]; n.Stopped() && n.everStarted {
+			down = append(down, n)
+		}
+	}
+	sort.Slice(down, func(i, j int) bool { return down[i].downSeq.Load() > down[j].downSeq.Load() })
+	var confs []map[string]bool
+	for _, id := range c.Order {
+		if r := c.Nodes[id].Raft(); r != nil && c.Nodes[id].Running() {
+			cf := r.Configuration()
+			vs := map[string]bool{}
+			for m, v := range cf.IsVoter {
+				if v {
+					vs[m] = true
+				}
+			}
+			confs = append(confs, vs)
+		}
+	}
+	if len(confs) == 0 {
+		return keep // nobody runs: everybody is restarted
+	}
+	ok := func() bool {
+		for _, vs := range confs {
+			up := 0
+			for m := range vs {
+				if n := c.Nodes[m]; n != nil && n.everStarted && !keep[m] {
+					up++ // runs already or is about to be restarted
+				}
+			}
+			if up < len(vs)/2+1 {
+				return false
+			}
+		}
+		return true
+	}
+	for _, n := range down {
+		if len(keep) >= c.H.KeepDown {
+			break
+		}
+		keep[n.ID] = true
+		if !ok() {
+			delete(keep, n.ID)
+		}
+	}
+	return keep
 }
 
 // runInBubble executes one case. next yields the actions (generator or script).
